@@ -151,6 +151,13 @@ def stmts(k, menu, d, loop, fin):
           for c in nblocks(b2, menu, d - 1, loop, fin):
             for e in nblocks(m - a - b2, menu, d - 1, loop, fin):
               yield ('tryelse', b, c, e)
+  if 'trybareelse' in comp:
+    for a in range(1, m - 1):
+      for b2 in range(1, m - a):
+        for b in nblocks(a, menu, d - 1, loop, fin):
+          for c in nblocks(b2, menu, d - 1, loop, fin):
+            for e in nblocks(m - a - b2, menu, d - 1, loop, fin):
+              yield ('trybe', b, c, e)
   if 'try2h' in comp:
     for a in range(1, m - 1):
       for b2 in range(1, m - a):
@@ -336,6 +343,13 @@ class Render(object):
       self.block(s[2], ind + 1)
       e(ind, 'else:')
       self.block(s[3], ind + 1)
+    elif k == 'trybe':       # bare except + else: exceptions raised in the else clause go to the enclosing try
+      e(ind, 'try:')
+      self.block(s[1], ind + 1)
+      e(ind, 'except:')
+      self.block(s[2], ind + 1)
+      e(ind, 'else:')
+      self.block(s[3], ind + 1)
     elif k == 'try2h':
       e(ind, 'try:')
       self.block(s[1], ind + 1)
@@ -492,7 +506,7 @@ def stmt_reductions(s):
       for r in reductions(s[j]):
         if r:
           yield (s[:j] + (r,) + s[j + 1:],)
-  elif k in ('tryelse', 'try2h'):
+  elif k in ('tryelse', 'try2h', 'trybe'):
     for j in (1, 2, 3):
       yield s[j]
       for r in reductions(s[j]):
@@ -533,7 +547,7 @@ def skeleton(body):
       out.append('with(%s)' % skeleton(s[1]))
     elif k == 'tryO':
       out.append('tryO(%s|%s)' % (skeleton(s[1]), skeleton(s[2])))
-    elif k in ('tryelse', 'try2h'):
+    elif k in ('tryelse', 'try2h', 'trybe'):
       out.append('%s(%s|%s|%s)' % (k, skeleton(s[1]), skeleton(s[2]), skeleton(s[3])))
     elif k == 'def':
       out.append('def(%s)' % skeleton(s[1]))
